@@ -15,6 +15,7 @@ package writer
 //@   loop 1:
 //@     invariant overallError == (ghost(0, "bulkFailed") == 1)
 //@     invariant [one-item-per-action] ghost(0, "bulkItems") == inCount
+//@     invariant [an-oversized-document-affects-only-its-own-item] !maxRecordSizeExceeded
 //@   site store items[inCount-1] #1:
 //@     ghostset ghost(0, "bulkFailed") = 1
 //@     ghostset ghost(0, "bulkItems") = ghost(0, "bulkItems") + 1
